@@ -415,17 +415,16 @@ fn ingest_from_pubsub(map: Arc<RwLock<HashMap<String, u128>>>) {
 }
 
 fn pubsub_handle_s2d(map: &Arc<RwLock<HashMap<String, u128>>>, s2d: &StationToDetector) {
-    let sd = match SessionResult::from(s2d) {
-        Ok(m) => m,
-        Err(e) => {
-            debug!("Error converting S2D to SD: {}", e);
-            return;
-        }
-    };
-
+    // Only New and Update describe a session. The Clear message the station
+    // sends at shutdown carries nothing but the operation, so the conversion
+    // must not be a precondition for acting on it.
     match s2d.operation() {
-        StationOperations::New => pubsub_add_or_update_session(map, sd),
-        StationOperations::Update => pubsub_add_or_update_session(map, sd),
+        StationOperations::New | StationOperations::Update => match SessionResult::from(s2d) {
+            Ok(sd) => pubsub_add_or_update_session(map, sd),
+            Err(e) => {
+                debug!("Error converting S2D to SD: {}", e);
+            }
+        },
         StationOperations::Clear => pubsub_clear(map),
         StationOperations::Unknown => {
             debug!("unknown operation requested by application")
@@ -660,6 +659,27 @@ mod tests {
         let len = mm.len();
         drop(mm);
         assert_eq!(len, 0, "Incorrect len for map after ingest: {len}");
+    }
+
+    #[test]
+    fn test_pubsub_clear_message() {
+        let map = Arc::new(RwLock::new(HashMap::new()));
+
+        let mut s2d = StationToDetector::new();
+        s2d.set_client_ip("192.168.0.1".to_string());
+        s2d.set_phantom_ip("10.10.0.1".to_string());
+        s2d.set_timeout_ns(5 * S2NS_U64);
+        s2d.set_proto(IPProto::Tcp);
+        s2d.set_operation(StationOperations::New);
+        pubsub_handle_s2d(&map, &s2d);
+        assert_eq!(map.read().expect("RwLock Broken").len(), 1);
+
+        // The station's clear message (clearDetector) sets the operation and
+        // nothing else: no addresses, no proto.
+        let mut clear = StationToDetector::new();
+        clear.set_operation(StationOperations::Clear);
+        pubsub_handle_s2d(&map, &clear);
+        assert_eq!(map.read().expect("RwLock Broken").len(), 0);
     }
 
     #[test]
